@@ -2,3 +2,5 @@ import MellonDriver.Core
 import MellonDriver.Kernel
 import MellonDriver.Cond
 import MellonDriver.Decomp
+import MellonDriver.Rank
+import MellonDriver.Params
